@@ -49,6 +49,7 @@ type c20world struct {
 	m       *Mesh
 	ep, in  int
 	rp      *RawPeer
+	rp2     *RawPeer
 	cfg     map[string]map[string]string // node name -> key -> target
 	reqs    []*c20req
 	checked int
@@ -242,6 +243,68 @@ func (w *c20world) doRaw(key string, pathSelf bool) {
 	}
 }
 
+// doTwin: two peers of the endpoint agent ask at the same moment, under the same
+// per-connection stream id, for two keys. Each request must be served from its
+// own key: the connections made are exactly the targets of the two keys (one
+// each, none for a key without endpoint).
+func (w *c20world) doTwin(keyA string) {
+	epNode := w.m.Nodes[w.ep]
+	cfgKeys := SortedKeys(w.cfg[epNode.Name])
+	if len(cfgKeys) == 0 {
+		return
+	}
+	keyB := cfgKeys[simrt.Choose(len(cfgKeys), "twin-keyb")]
+	if len(keyA) > 247 {
+		keyA = keyA[:247]
+	}
+	if len(keyB) > 247 || keyA == keyB {
+		return
+	}
+	w.checkDials()
+	ra := &c20req{k: len(w.reqs), via: "raw-twin", key: keyA}
+	w.reqs = append(w.reqs, ra)
+	rb := &c20req{k: len(w.reqs), via: "raw-twin", key: keyB}
+	w.reqs = append(w.reqs, rb)
+	sid := uint64(1001 + 2*ra.k)
+	pa := openWire(uint64(9000+ra.k), protocol.AddrTypeDomain, domainAddr(protocol.ForwardStreamPrefix+keyA), 0, nil, w.pub)
+	pb := openWire(uint64(9000+rb.k), protocol.AddrTypeDomain, domainAddr(protocol.ForwardStreamPrefix+keyB), 0, nil, mustKeypairPub())
+	base := len(w.m.Net.Dials)
+	ra.issue, rb.issue = simrt.Seq(), simrt.Seq()
+	simrt.Eventf("req #%d/#%d twin forward keys %s / %s, same stream id %d from two peers", ra.k, rb.k, keyStr(keyA), keyStr(keyB), sid)
+	simrt.Probe("c20_twin_requests")
+	fa, fb := len(w.rp.Received), len(w.rp2.Received)
+	w.rp.Send(&protocol.Frame{Type: protocol.FrameStreamOpen, StreamID: sid, Payload: pa})
+	w.rp2.Send(&protocol.Frame{Type: protocol.FrameStreamOpen, StreamID: sid, Payload: pb})
+	answered := func(f *protocol.Frame) bool {
+		return f.StreamID == sid && (f.Type == protocol.FrameStreamOpenAck || f.Type == protocol.FrameStreamOpenErr)
+	}
+	w.rp.WaitFrame(fa, 15*time.Second, answered)
+	w.rp2.WaitFrame(fb, 15*time.Second, answered)
+	simrt.Sleep(time.Second)
+	ra.done, rb.done = simrt.Seq(), simrt.Seq()
+	want := map[string]int{}
+	for _, k := range []string{keyA, keyB} {
+		if t, ok := w.cfg[epNode.Name][k]; ok {
+			want[t]++
+		}
+	}
+	got := map[string]int{}
+	for _, d := range w.m.Net.Dials[base:] {
+		if d.Node == epNode.Name {
+			got[d.Address]++
+		}
+	}
+	for _, a := range SortedKeys(got) {
+		if got[a] > want[a] {
+			simrt.Failf("forward-dial-wrong-target", "endpoint agent connected to a target other than the one configured for the requested key", "two peers asked %s at the same moment (same stream id %d) for keys %s and %s: it dialled %s %d time(s), the keys' targets are %v; endpoints: %s", epNode.Name, sid, keyStr(keyA), keyStr(keyB), a, got[a], want, w.cfgStr(epNode.Name))
+		}
+	}
+	w.checked = len(w.m.Net.Dials)
+	w.rp.Send(&protocol.Frame{Type: protocol.FrameStreamClose, StreamID: sid})
+	w.rp2.Send(&protocol.Frame{Type: protocol.FrameStreamClose, StreamID: sid})
+	simrt.Sleep(3 * time.Second)
+}
+
 // doHonest asks the ingress agent to open a forward tunnel for key.
 func (w *c20world) doHonest(key string) {
 	r := &c20req{k: len(w.reqs), via: "honest", key: key}
@@ -343,6 +406,13 @@ func runC20() {
 	}
 	w.rp = rp
 	w.pub = mustKeypairPub()
+	if simrt.Chance(1, 2, "second-raw-peer") {
+		// a second peer of the endpoint agent: its per-connection stream ids are its own
+		if rp2, err := m.AttachRawPeer(w.ep, 1); err == nil {
+			w.rp2 = rp2
+			defer rp2.Close()
+		}
+	}
 
 	// request keys: everything configured anywhere, plus near misses derived from the configuration, plus the fixed extras
 	var pool []string
@@ -355,6 +425,8 @@ func runC20() {
 		}
 		if len(k) < 240 {
 			pool = append(pool, k+"2", strings.ToUpper(k), strings.ToLower(k))
+			// spellings a careless normalisation would fold onto the configured key
+			pool = append(pool, k+".", k+"..", "."+k, k+"/", k+" ", " "+k, k+"\x00", k+":0")
 		}
 	}
 	steps := 6 + simrt.Choose(10, "steps")
@@ -372,7 +444,9 @@ func runC20() {
 		default:
 			key = c20CfgKeys[simrt.Choose(len(c20CfgKeys), "cfgkey-req")]
 		}
-		if simrt.Chance(1, 4, "honest") {
+		if w.rp2 != nil && simrt.Chance(1, 6, "twin") {
+			w.doTwin(key)
+		} else if simrt.Chance(1, 4, "honest") {
 			w.doHonest(key)
 		} else {
 			if len(key) > 247 {
